@@ -81,7 +81,7 @@ def gen_model(rng, max_demes=7, want_ms=False):
         if not anc:
             start = INF
         if len(anc) == 1:
-            props = [rng.choice([1, 1.0])]
+            props = [rng.choice([1, 1.0, 1, 1.0, 1, 0.9999999999, 1 - 1e-12])]
         elif len(anc) == 2:
             props = list(rng.choice(PROPS2))
         elif len(anc) == 3:
@@ -504,3 +504,43 @@ def mutate_structure(rng, doc):
     except Exception:
         return ("noop", d)
     return (op + ":" + ".".join(str(k) for k in p if isinstance(k, str)), d)
+
+
+def clique_family(rng, n=None, keys=1):
+    """An island-like model on n coexisting demes in which the directional migrations
+    of each (rate, start, end) key are a random subset of all ordered pairs, biased
+    towards unions of cliques with some pairs missing."""
+    n = n or rng.randint(2, 6)
+    names = NAMES[:n]
+    split = rng.choice([None, 50, 80.5])
+    demes = []
+    for i, nm in enumerate(names):
+        if i == 0 or split is None or rng.random() < 0.4:
+            demes.append(dict(name=nm, epochs=[dict(start_size=100 + i, end_time=0)]))
+        else:
+            demes.append(dict(name=nm, ancestors=[names[0]], start_time=split,
+                              epochs=[dict(start_size=100 + i, end_time=0)]))
+    migs = []
+    used = set()
+    for k in range(keys):
+        rate = [1e-3, 2e-3, 5e-4][k % 3]
+        bounds = rng.choice([{}, {}, dict(start_time=40), dict(end_time=10), dict(start_time=30, end_time=5)])
+        pairs = set()
+        for _ in range(rng.randint(1, 3)):
+            grp = rng.sample(names, rng.randint(2, n))
+            for a in grp:
+                for b in grp:
+                    if a != b:
+                        pairs.add((a, b))
+        for p in list(pairs):
+            if rng.random() < 0.15:
+                pairs.discard(p)
+        for _ in range(rng.randint(0, 2)):
+            a, b = rng.sample(names, 2)
+            pairs.add((a, b))
+        pl = [p for p in pairs if p not in used]
+        rng.shuffle(pl)
+        for a, b in pl:
+            used.add((a, b))
+            migs.append(dict(source=a, dest=b, rate=rate, **bounds))
+    return dict(time_units="generations", demes=demes, migrations=migs)
